@@ -516,7 +516,7 @@ func init() {
 			e.p("directed", 1)
 			vt.Hold(func(tid, site int, kind string) bool {
 				n := siteName(site)
-				return phase == 1 && tid == producer && kind == "lock" && recEnqCount-base >= k &&
+				return phase == 1 && tid == producer && (kind == "lock" || kind == "lockreq") && recEnqCount-base >= k &&
 					(strings.HasPrefix(n, "Queue.Enqueue/") || strings.HasPrefix(n, "PriorityQueue.Enqueue/"))
 			})
 		}
